@@ -80,6 +80,17 @@ CLAIMED = {
         note="timer expiry order is the virtual-time order (no racing of T3 against an arriving S1F14 at the same instant); "
              "stale S1F14 (non-matching system bytes) is accepted by the monitor as an exchange on the current link",
         design="5/C07"),
+    "C08": dict(
+        technique="TLA+ decision-table monitor ReplyMon (+ behaviour spec ReplyDiscipline checked by TLC); real host/equipment "
+                  "handlers fed every catalogued S/F x W x body class and uncatalogued S/F numbers; each (inbound, answers) record "
+                  "judged by TLC (ReplyJudge)",
+        text="What must be answered is a TLA+ decision table over (callback class, W-bit, body class); TLC checks the behaviour "
+             "spec built on it (one answer at most, none without request, independent of history). Real GemHostHandler and "
+             "GemEquipmentHandler in COMMUNICATING receive all 134 catalogued functions x W x {well-formed, malformed, empty, "
+             "trailing byte} and uncatalogued S/F pairs (thorough: all 128x256) in shuffled long sequences plus probe callbacks; "
+             "TLC judges the outbound messages carrying each inbound message's system bytes.",
+        note="callback class per S/F is read from the handler's public callback table; unrelated outbound traffic ignored",
+        design="5/C08"),
 }
 
 NOT_YET = "check not built yet in this round (specification and harness in progress; see DESIGN.md section 9)"
